@@ -736,7 +736,10 @@ impl<'w> Ctx<'w> {
         if sig.rec_self {
             argv.push("fuel".into());
         }
-        let call = format!("Grenad.Gen.{} {}", sig.lean, argv.join(" "));
+        let call = if let Some(t) = &sig.ext_ty {
+            if !self.used_externs.iter().any(|(n, _)| *n == sig.lean) { self.used_externs.push((sig.lean.clone(), t.clone())); }
+            format!("{} {}", sig.lean, argv.join(" "))
+        } else { format!("Grenad.Gen.{} {}", sig.lean, argv.join(" ")) };
         let ret_ty = if sig.ret_is_res { Ty::Res(Box::new(sig.ret.clone())) } else { sig.ret.clone() };
         if backs.is_empty() {
             return Ok(E { s: format!("(← {})", call), ty: ret_ty, eff: true });
